@@ -5,5 +5,15 @@ claim("C18", "proof",
       "DESIGN.md §9 C18",
       "Lean kernel + propext/Classical.choice/Quot.sound; linked list/pool abstracted to List (modelled); extractor + differential harness trusted; seq as Nat",
       "Lean 4 proof (induction over the binary search / collect recursion) + regenerated skeleton tie + differential correspondence")
-for p in ["C01","C02","C03","C04","C05","C06","C07","C08","C09","C10","C11","C12","C13","C14","C15","C16","C17","C19","C20"]:
+claim("C19", "proof",
+      "Lean theorems C19_roundtrip (every record with 16-byte ids, any key bytes, any 64-bit seq), C19_layout (byte-by-byte little-endian layout), C19_reject_iff (decode rejects exactly inputs shorter than 40 bytes; total), C19_decode_encode (injectivity) and C19_uuid (canonical text round trip); tie: generated constants and skeletons of marshalFile/unmarshalFile/key/Set/GetAll, differential run through the real Repo.Set/Repo.GetAll on boundary, random and malformed inputs, committed golden vectors.",
+      "DESIGN.md §9 C19",
+      "Lean kernel; google/uuid modelled for the canonical form only; extractor + harness trusted; Go slice-bounds (no panic) only exercised, not proven",
+      "Lean 4 proof (algebraic round-trip laws, omega over div/mod) + regenerated constants/skeleton tie + differential correspondence")
+claim("C20", "proof",
+      "Lean theorems C20_precedence, C20_no_file, C20_malformed_is_error, C20_valid over all combinations of layer states of the seven settings (values abstracted to provenance tokens); tie: skeletons of ParseConfig/ParseEnv/Valid/const blocks/struct tags + generated constants; differential run of the real ParseConfig+Valid on single, pairwise, random (quick) and the full 6^7 product (thorough) of layer combinations.",
+      "DESIGN.md §9 C20",
+      "Lean kernel; strconv/time.ParseDuration/yaml.v2 are parameters with contract 'malformed => error' (trusted, exercised); extractor + harness trusted",
+      "Lean 4 proof (case analysis over layer states) + regenerated skeleton/constant tie + differential correspondence")
+for p in ["C01","C02","C03","C04","C05","C06","C07","C08","C09","C10","C11","C12","C13","C14","C15","C16","C17"]:
     na(p, PENDING)
